@@ -1266,3 +1266,22 @@ func init() {
 	externals["go.uber.org/zap.Stack"] = stackField
 	externals["go.uber.org/zap.StackSkip"] = stackField
 }
+
+func init() {
+	// expvar metrics do not influence control flow: no-op objects
+	newObj := func(fr *frame, args []value) value {
+		t := fr.fn.Signature.Results().At(0).Type()
+		var v value = zero(mustDeref(t))
+		return &v
+	}
+	externals["expvar.NewMap"] = newObj
+	externals["expvar.NewInt"] = newObj
+	externals["expvar.NewFloat"] = newObj
+	externals["expvar.NewString"] = newObj
+	noop := func(fr *frame, args []value) value { return nil }
+	for _, m := range []string{"(*expvar.Map).Add", "(*expvar.Map).AddFloat", "(*expvar.Map).Set", "(*expvar.Map).Delete", "(*expvar.Int).Set", "(*expvar.Int).Add", "(*expvar.Float).Set", "(*expvar.Float).Add", "expvar.Publish"} {
+		externals[m] = noop
+	}
+	externals["(*expvar.Map).Init"] = func(fr *frame, args []value) value { return args[0] }
+	externals["(*expvar.Int).Value"] = func(fr *frame, args []value) value { return int64(0) }
+}
